@@ -1,7 +1,7 @@
-(* C16 -- statements only; see DESIGN.md section 6 C16.  Theorems are added as the proofs land;
-   the witnesses below are evaluated in the kernel on the whole-parser model. *)
+(* C16 -- look-ahead never contradicts, alters or replaces real parsing.  Statements only; proofs in
+   proofs/LookaheadProofs.v; see DESIGN.md section 6 C16. *)
 From Coq Require Import String.
-From MdIt Require Import Prims Tables Tree Render Core Dump Dispatch.
+From MdIt Require Import Prims Tables Tree Render Block Inline Core Dump Dispatch BlockProofs InlineProofs LookaheadProofs.
 Local Open Scope string_scope.
 Local Open Scope list_scope.
 Local Open Scope N_scope.
@@ -28,3 +28,47 @@ b" = bs "<ul>
 <p>b</p>
 ".
 Proof. vm_compute. split; reflexivity. Qed.
+
+(* FULL STATEMENT: (a) whenever a rule accepts in look-ahead (silent) mode at a position, parsing there
+   with that rule produces the construct with the same extent; (b) look-ahead leaves the tree untouched;
+   (c) a contract-conforming custom block rule is invoked for real at every line it claimed.
+
+   PROVED for the model (every state, every chain, every fuel):
+   (a) block rules: silent acceptance implies real acceptance (a block rule's extent is decided by the
+       real call only; look-ahead returns a verdict);
+       inline rules: silent acceptance with length n implies that the real call, if it returns, accepts and
+       leaves the cursor at the same end position;
+   (b) inline look-ahead, including the whole skip_token recursion used to scan link labels, returns a
+       state whose node is the node it was given.  For block rules (b) and (c) hold in the model by
+       construction (a look-ahead call returns a verdict only and runs on a copy of the line cursor), which
+       is exactly what the dual-run probe hook and the two custom-rule styles test on the implementation
+       on every run; they are not theorems. *)
+
+Theorem C16_block_lookahead_implies_real : forall cfg T r st,
+  rule_silent r st = inr true -> flag_true (rule_real cfg T r st).
+Proof. exact block_silent_real. Qed.
+
+Theorem C16_inline_lookahead_same_extent : forall cfg TK SK r st,
+  end_agree (run_rule cfg TK SK r st true) (run_rule cfg TK SK r st false).
+Proof. exact silent_real_same_end. Qed.
+
+Theorem C16_inline_lookahead_leaves_tree : forall cfg f r st ss o,
+  run_rule cfg (itokenize f cfg) (iskip f cfg) r st true = inr (ss, o) -> i_node ss = i_node st.
+Proof. exact silent_rule_node_untouched. Qed.
+
+Theorem C16_skip_token_leaves_tree : forall cfg f st st', iskip f cfg st = inr st' -> i_node st' = i_node st.
+Proof. exact iskip_node_untouched. Qed.
+
+(* non-vacuity: a look-ahead that accepts, with the real call ending at the same place *)
+Example C16_nonvacuous :
+  let st := IState (bs "[a](u) x") [(0, SAbs 0)] (mk KRoot None []) 0 8 [] 0 0 [] [] in
+  let cfg := ICfg [I_TEXT; I_LINK] 100 true [] [] in
+  (match run_rule cfg (itokenize 10 cfg) (iskip 10 cfg) I_LINK st true with inr (ss, Some n) => Some (i_pos ss + n) | _ => None end,
+   match run_rule cfg (itokenize 10 cfg) (iskip 10 cfg) I_LINK st false with inr (sr, Some n) => Some (i_pos sr + n) | _ => None end)
+  = (Some 6, Some 6).
+Proof. vm_compute. reflexivity. Qed.
+
+Print Assumptions C16_block_lookahead_implies_real.
+Print Assumptions C16_inline_lookahead_same_extent.
+Print Assumptions C16_inline_lookahead_leaves_tree.
+Print Assumptions C16_skip_token_leaves_tree.
